@@ -611,3 +611,10 @@ impl<'a> hb_ot_map_builder_t<'a> {
         Some(())
     }
 }
+
+/// Verification hooks (compiled only with `--cfg rb_verif`).
+#[cfg(rb_verif)]
+#[allow(unused_imports, dead_code, missing_docs)]
+pub mod verif_hooks {
+    use super::*;
+}
